@@ -195,13 +195,17 @@ func main() {
 	}
 	ids := []int64{0, 1, 2, 3, 1<<48 - 1}
 	for c := 0; c < n; c++ {
-		nk := 2 + rng.Intn(4) // few kinds => collisions between tables are frequent
+		nk := 1 + rng.Intn(4) // few kinds => collisions between tables are frequent
 		ln := 3 + rng.Intn(22)
 		var ops []op
 		tag := 1
 		for i := 0; i < ln; i++ {
 			k := rng.Intn(nk)
-			switch x := rng.Intn(10); {
+			x := rng.Intn(10)
+			if i < ln/3 && rng.Chance(70) {
+				x = rng.Intn(4) // registrations first, so that most incoming streams have a candidate handler
+			}
+			switch {
 			case x < 2:
 				ops = append(ops, op{"hc", k, hlib.Pick(rng, ids), tag})
 				tag++
